@@ -13,6 +13,19 @@ CLAIMED = {
         'Control flow of decode.c is modelled by hand and tied only by correspondence.',
    technique='Coq proof (induction over the input, finite sweeps lifted by forallb_forall) + extracted-model differential correspondence',
    ref='DESIGN 6 C16'),
+ 'C07': dict(
+   text='Coq theorems (partial), each for every byte string: (1) totality - header parsing, boundary scanning, the part loop, recursive flattening with the depth limit, '
+        'body selection, RFC 2047 decoding and the interpolation scanner never exhaust the fuel they are started with; (2) bounds - index-level models of findheader, '
+        'unfoldheader, skipline/findboundary, parseboundary, skipseparator (built from per-byte strncmp/strchr/strspn/strlen reads with an explicit out-of-bounds result) never '
+        'read past the terminator nor write past the allocation, searchheader never indexes outside the table, the base64 output fits its buffer; (3) the index-level '
+        'findheader and findboundary refine the list-level models the other checks tie to the code; (4) in the handle model of the attachment table (every growth '
+        'invalidates pointers) the re-derivation of msg makes every dereference valid, and without it one is stale (F-09, fixed by 6186a8d). Tied by running the '
+        'implementation: message.h call sequences and the mdsort binary (8 configurations: every matcher, rewriting actions, attachment block + exec, -d, stdin mode), both '
+        'built with AddressSanitizer + UBSan, on generated and mutated hostile messages up to 64 KiB with a time limit; a sanitizer report, signal or hang is a violation.',
+   note='Memory safety of the compiled binary is NOT proved: libc internals, the allocator, pointer provenance and signed overflow are outside the model; the sanitizer runs are '
+        'tests over sampled inputs. unfoldheader / parseboundary / skipseparator refinement is tested (scan command of the extracted model), not proved.',
+   technique='Coq proof (fuel adequacy by measure, index-level bounds by induction, refinement to the list-level models) + sanitizer-instrumented differential runs (test)',
+   ref='DESIGN 6 C07'),
  'C08': dict(
    text='Coq theorems about the hand-written model of message.c header handling: for every well-formed message text (any fields, duplicates, '
         'case, folding, 8-bit, length) parse recovers exactly fields+body; after any sequence of set_header calls the written bytes are the '
